@@ -39,8 +39,8 @@ func c10Decl(types []int, slice int, owner int, popt int) *decl.Decl {
 		}
 		return pos
 	}
-	top := &decl.Cmd{Name: "app", Opts: []*decl.Opt{
-		{Field: "Verbose", Short: "v", Long: "verbose", Type: decl.TBools},
+	// -v sits in a group of the parser (on the API path that group may be added after the commands and after a first parse)
+	top := &decl.Cmd{Name: "app", Groups: []*decl.Group{{Field: "LG", Name: "Late Group", Opts: []*decl.Opt{{Field: "Verbose", Short: "v", Long: "verbose", Type: decl.TBools}}}}, Opts: []*decl.Opt{
 		{Field: "Str", Short: "s", Long: "str", Type: decl.TString},
 		{Field: "Two", Short: "2", Long: "two", Type: decl.TBool}, // a digit as short name: -2 is this flag, never a negative number for a pending positional
 	}}
@@ -112,10 +112,14 @@ func init() {
 			c.Skip() // the unsigned slice (010 is ten) goes with the parser-owned layouts
 		}
 		pdd := popt&1 != 0
-		api := c.Bool()
+		path := c.Choose(3) // 0 struct tags, 1 API, 2 API with the parser's group added after the commands and after two parses (sequences one unit shorter)
+		api := path != 0
 		maxDepth := 4
 		if len(layouts[li]) >= 2 || popt >= 2 || owner == 2 {
 			maxDepth = 3 // the larger declaration families go one unit less deep
+		}
+		if path == 2 {
+			maxDepth--
 		}
 		if c.Thorough {
 			maxDepth++
@@ -145,7 +149,7 @@ func init() {
 			if c10Slices[si] != nil {
 				ts = append(ts, c10Slices[si].Name)
 			}
-			return map[string]interface{}{"positional_fields": ts, "owner(0 parser,1 command,2 both)": owner, "pass_double_dash": pdd, "pass_after_non_option": popt&2 != 0, "api_path": api, "argv": argv}
+			return map[string]interface{}{"positional_fields": ts, "owner(0 parser,1 command,2 both)": owner, "pass_double_dash": pdd, "pass_after_non_option": popt&2 != 0, "api_path": api, "group_added_after_commands_and_two_parses": path == 2, "argv": argv}
 		})
 		cfg := &ref.Config{D: d}
 		res := ref.Run(cfg, argv)
@@ -155,7 +159,17 @@ func init() {
 		}
 		recordStates(c, key, res, nil)
 		var b *decl.Built
-		if api {
+		if path == 2 {
+			c.Hit("late-built")
+			b = d.BuildAPIWith(func(hb *decl.Built) {
+				hb.Parser.ParseArgs([]string{"w"})
+				hb.Parser.ParseArgs([]string{"cmd", "w"})
+				for _, fc := range hb.Cmds {
+					fc.Active = nil
+				}
+				rezero(hb)
+			})
+		} else if api {
 			b = d.BuildAPI()
 		} else {
 			b = d.BuildTags()
@@ -251,10 +265,10 @@ func init() {
 		Level:      "model_checking",
 		ShardDepth: 5,
 		Body:       body,
-		Rule: "positional layouts: every sequence of 0..3 scalar fields over {string, int, a string kind whose only method is a pointer-receiver Unmarshaler, map[string]int} (an int field at an odd position carries base:\"8\") x trailing slice {none, []string, []int, []*string (parser-owned layouts with a pass-through option), []uint8 (parser-owned layouts)} x owner {parser, command, both (the same layout on each)} x {None, PassDoubleDash, PassAfterNonOption, both} x {tags, API} " +
+		Rule: "(the parser's -v flag sits in a group of the parser; build paths: struct tags, API, API with that group added after the commands and after two parses on the half-built parser, sequences one unit shorter) positional layouts: every sequence of 0..3 scalar fields over {string, int, a string kind whose only method is a pointer-receiver Unmarshaler, map[string]int} (an int field at an odd position carries base:\"8\") x trailing slice {none, []string, []int, []*string (parser-owned layouts with a pass-through option), []uint8 (parser-owned layouts)} x owner {parser, command, both (the same layout on each)} x {None, PassDoubleDash, PassAfterNonOption, both} x {tags, API} " +
 			"x every sequence of <= 4 units (<= 3 for layouts of two or three fields, PassAfterNonOption and both-owner declarations; thorough: one more everywhere, 6 for parser-owned layouts built through the API with PassDoubleDash) over {w, 7, -3, 010 (ten, or eight where the field says base 8), --str= (the empty value, attached), k:1, a quoted 7 (with its quotes: a positional is taken verbatim), -v, -s val, -2 (a declared flag with a digit as short name), --, -x, cmd}; oracle = CLM positional queue (field values after conversion, overflow into remaining arguments); beside that, four hand-built declarations (two positional-args structs on one parser; an unexported field between exported ones; the positional-args struct and a command behind nil pointers; the positional-args tag spelled y / 1 / true instead of yes, compared with the yes spelling on every vector of <= 4 tokens over {n, -v, 3, r}); after every accepted vector the public Args() list must still be the declared one and, for layouts without a slice, a second parse of the same vector on the same parser must bind the same fields",
 		Assumptions:  []string{"conversion of the alphabet's tokens is taken from the conversion model (checked against the library by C11)"},
-		RequiredHits: []string{"compared", "three-or-more-bound", "after-terminator", "conversion-fault", "second-parse"},
+		RequiredHits: []string{"compared", "three-or-more-bound", "after-terminator", "conversion-fault", "second-parse", "late-built"},
 		Bound:        [2]string{"all unit sequences of length <= 4", "all unit sequences of length <= 5 (<= 6 on one declaration family)"},
 		BudgetS:      [2]int{170, 1500},
 	})
